@@ -155,10 +155,10 @@ HC_NOTE = ("Host calls are invoked through the real omega tables (AccumulateOmeg
 
 check("C07", "PVM",
       rule="case = one generated accumulation/refinement context (caller + 0..3 accounts with storage, preimages, lookups - some only in the raw pool -, privileges, queues; guest memory of 4 RW pages + 1 RO page) driven through 1..40 host calls (all 28 identifiers incl. log, arguments biased to the edges of the mapped ranges, lengths {0, small, 2^32, random 64-bit}, own/other/absent/2^64-1 service ids and 64-bit values whose low half is an existing id); after EVERY call the frame table is evaluated on pre/post snapshots of registers, gas, every guest page, the logical projection of X and Y and the inner-machine table: "
-           "only ω7 (+ω8 for query/invoke, none for log) may change; gas -10 (transfer -10-l); unreadable required input => PANIC; PANIC or error code => memory and context unchanged; memory changes only inside the destination range; Y changes only at checkpoint; a service argument >= 2^32 (other than 2^64-1 = caller) names no service: lookup / read / info / historical_lookup answer NONE and write nothing, eject / provide / transfer answer WHO and change nothing; after every call the guest ranges it was given are scrambled and the context and inner machines must stay as they were (no retained views of guest memory). Plus `ecalli id` programs for identifiers absent from the real table (27..99, 101..255, >255, sign-extended): ω7=WHAT, gas -10, nothing else. distinct_nontrivial = distinct contexts + distinct (id, table)",
+           "only ω7 (+ω8 for query/invoke, none for log) may change; gas -10 (transfer -10-l); unreadable required input => PANIC; PANIC or error code => memory and context unchanged; memory changes only inside the destination range; Y changes only at checkpoint; a service argument >= 2^32 (other than 2^64-1 = caller) names no service: lookup / read / info / historical_lookup answer NONE and write nothing, eject / provide / transfer answer WHO and change nothing; a lookup length z >= 2^32 is the length of no entry: query answers NONE, forget HUH; after every call the guest ranges it was given are scrambled and the context and inner machines must stay as they were (no retained views of guest memory). Plus `ecalli id` programs for identifiers absent from the real table (27..99, 101..255, >255, sign-extended): ω7=WHAT, gas -10, nothing else. distinct_nontrivial = distinct contexts + distinct (id, table)",
       technique="invariant monitor at the omega-table boundary (per-call frame table over pre/post snapshots)",
       level_text="Every call of generated host-call sequences is checked against its register/memory/context frame; held = no frame violation on what was explored.",
-      note=HC_NOTE, shards=(8, 16), floors={"any": {"calls": 50000, "unknown_ids": 2000, "calls_naming_a_service_outside_the_32_bit_range": 300, "alias_probes": 5000}})
+      note=HC_NOTE, shards=(8, 16), floors={"any": {"calls": 50000, "unknown_ids": 2000, "calls_naming_a_service_outside_the_32_bit_range": 300, "calls_with_a_lookup_length_outside_the_32_bit_range": 60, "alias_probes": 5000}})
 
 check("C08", "PVM",
       rule="the C07 sequence driver with the ledger monitor: after every call the exact (math/big) sum of all balances in X plus the amounts of X's deferred transfers must not increase; balances change only in successful new/transfer/eject, by exactly the specified amount (creator -a_t and new account +a_t with a_t = 100+10*2+81+l, sender -amount with the transfer recorded as requested, caller +ejected balance and the account removed); success requires the caller to stay at or above its own threshold, CASH requires that it would not; amounts/lengths drawn around the balance, 2^32 and 2^64. "
